@@ -11,7 +11,13 @@ import (
 	"safecheck/relang"
 )
 
-func init() { register("C17", "other", runC17) }
+func init() {
+	register("C17", "other", func(p *Program, r *Report) {
+		runC17(p, r)
+		checkBoundsProven(p, r, "C17.B1", "script.go")
+		checkLoopsMakeProgress(p, r, "C17.B2", "script.go")
+	})
+}
 
 const specJSName = `^[$_A-Za-z][$_A-Za-z0-9]*$`
 
